@@ -117,6 +117,31 @@ def complete_phase(ctx: Ctx):
     ctx.require(n_pick >= 1 and n_drop >= 1, "complete_trip_phase: pickup/dropoff branches not found")
 
 
+def trip_end_tables(ctx: Ctx, clause: str = "D4"):
+    """ServicingTrip.exit succeeds iff len(route) == 0, and its terminal condition is the same predicate."""
+    repo = ctx.repo
+    sc = states.state_class(repo, "ServicingTrip")
+    fn = sc.exit
+
+    def label(p):
+        if p.kind != "return":
+            return p.kind
+        return {"ok": "leave", "reject": "refuse", "error": "error"}.get(flow.classify_result(p.value), "other")
+
+    rows = cmp.path_table(flow.paths(fn.node), {"len(self.route)": "n"}, label, grid=range(0, 4))
+    bad = cmp.compare_table(rows, lambda g, f: "leave" if g["n"] == 0 else "refuse")
+    ctx.check(not bad, clause, "CMP.trip-end", "ServicingTrip.exit succeeds iff the route is finished (len(route) == 0), for any next activity", fn,
+              why_ok=f"{len(rows)} assignments agree", why_bad=f"differs on {bad[:3]}", construct="ServicingTrip.exit:table", witness={"bad": [str(b) for b in bad[:5]]})
+    t = repo.method(sc.cls, "_has_reached_terminal_state_condition")
+    ps = [p for p in flow.paths(t.node) if p.kind == "return"]
+    if len(ps) == 1:
+        rows = cmp.predicate_table(ps[0].value, {"len(self.route)": "n"}, grid=range(0, 4))
+        ok = not cmp.compare_table(rows, lambda g, f: g["n"] == 0)
+    else:
+        ok = all(flow.dump(p.value) in ("True", "False") and ((gd.allowed_lengths(p.facts(), "self.route") == {0}) == (flow.dump(p.value) == "True")) for p in ps)
+    ctx.check(ok, clause, "CMP.trip-end", "ServicingTrip is terminal iff len(route) == 0", t, why_bad="terminal condition differs", construct="ServicingTrip:terminal")
+
+
 def no_diversion(ctx: Ctx):
     repo = ctx.repo
     sc = states.state_class(repo, "ServicingTrip")
@@ -252,6 +277,21 @@ def dropoff(ctx: Ctx):
                       why_bad=f"drop_off_trip({', '.join(a)[:160]}) route-empty guard={empty}", construct="ServicingTrip._perform_update:dropoff")
             break
     ctx.require(n >= 1, "ServicingTrip._perform_update no longer drops off")
+    # ... and ALWAYS then: a path on which the moved vehicle is still on its trip with an empty route must drop off (the next
+    # update takes the terminal branch, so a drop-off skipped now never happens)
+    moved_route = f"move({sim}, {env}, self.vehicle_id)[1].vehicles.get(self.vehicle_id).vehicle_state.route"
+    for p in flow.paths(fn.node):
+        if p.kind != "return" or flow.classify_result(p.value) == "error":
+            continue
+        # a condition such as `not (underway and len(route) == 0)` leaves a disjunction open: look at each case
+        def on_trip(case):
+            return any(pol is True and flow.dump(a).startswith("isinstance(") and flow.dump(a).endswith(".vehicle_state, ServicingTrip)") for a, pol in case)
+        if not any(on_trip(case) and 0 in gd.allowed_lengths(case, moved_route) for case in p.fact_cases()):
+            continue  # the route cannot be empty here (or the vehicle is no longer on its trip)
+        dropped = any(e.name == "drop_off_trip" and not e.deferred for e in p.events)
+        ctx.check(dropped, "D5", "DU.provenance", "ServicingTrip._perform_update: whenever the moved vehicle's route is empty the passengers are dropped off in this very update", fn, p.end,
+                  why_bad=f"path [{p.cond_text()[:260]}] finishes the route without calling drop_off_trip: the next update goes straight to the terminal transition, the request is never dropped off",
+                  construct="ServicingTrip._perform_update:dropoff-skipped")
     # destination check inside drop_off_trip (shared with C07-D5)
     from .c07 import dropoff as c07_dropoff
     c07_dropoff(ctx)
